@@ -304,3 +304,38 @@ Example C20_tuple_nonvacuous :
   c20_tv_getitem x 3 = C20_Exc C20_IndexError /\ c20_tv_getitem x (-1) = C20_Exc C20_TypeError /\
   c20_tv_setitem x 2 (C20_TFloat (1#2)) = C20_Exc C20_RuntimeError.
 Proof. vm_compute; repeat split; reflexivity. Qed.
+
+(* ---- API-coverage round: slice assignment through the buffer view, copy(args), float(), list variants, rejected buffers *)
+Theorem C20_setslice : forall cfg st r o a b c idx vals,
+  nth_error (c20_regs st) r = Some o -> c20_slice_indices (c20_size o) a b c = C20_Ok idx ->
+  let view := {| c20_k := C20_Arr; c20_cells := map (fun j => nth j (c20_cells o) 0%nat) idx |} in
+  (List.length vals = List.length idx -> List.length vals <> 1%nat -> c20_step cfg st (C20_SetSlice r a b c vals) = c20_inplace st view vals) /\
+  (forall x, c20_step cfg st (C20_SetSlice r a b c [x]) = c20_inplace st view (repeat x (List.length idx))) /\
+  (List.length vals <> List.length idx -> List.length vals <> 1%nat -> c20_step cfg st (C20_SetSlice r a b c vals) = (st, C20_ObsExc C20_ValueError)).
+Proof. exact P_setslice. Qed.
+Print Assumptions C20_setslice.
+
+(* the view written by a slice assignment is a well-formed object, so C20_ops_inplace_effect applies to it:
+   its cells show the values, objects disjoint from it are unchanged *)
+Theorem C20_setslice_view_ok : forall st o a b c idx, c20_obj_ok (c20_H st) o ->
+  c20_slice_indices (c20_size o) a b c = C20_Ok idx ->
+  c20_obj_ok (c20_H st) {| c20_k := C20_Arr; c20_cells := map (fun j => nth j (c20_cells o) 0%nat) idx |}.
+Proof. exact P_setslice_view_ok. Qed.
+Print Assumptions C20_setslice_view_ok.
+
+Theorem C20_api_misc : forall cfg st r o, nth_error (c20_regs st) r = Some o -> c20_k o = C20_Vec ->
+  (forall vals, c20_step cfg st (C20_CopyArgs r vals) = c20_push_new st C20_Vec (c20_spec_construct (c20_size o) vals)) /\
+  (c20_size o = 1%nat -> c20_step cfg st (C20_Float r) = (st, C20_ObsScalar (nth 0 (c20_vals st o) 0%Q))) /\
+  (forall l, c20_step cfg st (C20_NeL r l) = (st, C20_ObsBool (negb (c20_veq (c20_vals st o) (c20_spec_construct (c20_size o) l))))) /\
+  (forall l, c20_step cfg st (C20_ISubL r l) = c20_inplace st o (c20_vsub (c20_vals st o) (c20_spec_construct (c20_size o) l))) /\
+  (forall l, c20_step cfg st (C20_AssignL r l) = c20_inplace st o (c20_spec_construct (c20_size o) l)) /\
+  c20_step cfg st C20_NewBadBuffer = (st, C20_ObsExc C20_ValueError).
+Proof. exact P_api_misc. Qed.
+Print Assumptions C20_api_misc.
+
+Example C20_setslice_nonvacuous :
+  let ops := [C20_New 5 [1#1; 2#1; 3#1; 4#1; 5#1]%Q; C20_View 0; C20_SetSlice 0 None None (Some (-2)%Z) [7#1; 8#1; 9#1]%Q;
+              C20_SetSlice 1 (Some 1%Z) (Some 4%Z) (Some 2%Z) [0]%Q; C20_SetSlice 0 None (Some 2%Z) None [1#1; 2#1; 3#1]%Q] in
+  c20_dump (fst (c20_run c20_cfg_fixed c20_init ops)) = [(C20_Vec, [9#1; 0; 8#1; 0; 7#1]%Q); (C20_Arr, [9#1; 0; 8#1; 0; 7#1]%Q)] /\
+  nth 4 (snd (c20_run c20_cfg_fixed c20_init ops)) C20_ObsNone = C20_ObsExc C20_ValueError.
+Proof. vm_compute; split; reflexivity. Qed.
